@@ -56,25 +56,9 @@ fn durable_image(base: &[u8], log: &[IoEv]) -> Vec<u8> {
     img
 }
 
-/// Grant one coordinator round and wait until the store is quiescent again.
+/// Grant one coordinator round and wait until it and the work it requested are done.
 fn one_round(sut: &Sut) -> Result<(), String> {
-    if !sut.quiesce(20_000) {
-        return Err("the flush workers did not become idle within 20 s".into());
-    }
-    sut.sess.tick_grants.store(1, Ordering::SeqCst);
-    let start = std::time::Instant::now();
-    while sut.sess.tick_grants.load(Ordering::SeqCst) != 0 {
-        if start.elapsed().as_secs() > 20 {
-            return Err("the coordinator did not take its round within 20 s".into());
-        }
-        std::thread::sleep(std::time::Duration::from_micros(100));
-    }
-    // the coordinator sends its requests right after consuming the grant
-    std::thread::sleep(std::time::Duration::from_micros(300));
-    if !sut.quiesce(20_000) {
-        return Err("the flush workers did not finish the coordinator's requests within 20 s".into());
-    }
-    Ok(())
+    sut.coordinator_round(20_000)
 }
 
 struct CaseResult {
